@@ -1,11 +1,11 @@
 package props
 
 import (
-	"go/types"
-	"go/token"
 	"fmt"
 	"go/ast"
 	"go/constant"
+	"go/token"
+	"go/types"
 	"regexp"
 	"strings"
 
